@@ -234,6 +234,14 @@ theorem paramTable_eq_spec (name : String) (θ : K) :
   · congr 1; mat_entries [GateLaws.cis_eq]
   · split <;> simp_all
 
+theorem specMatrix_square {name : String} {θs : List K} {U : Mat K} (h : specMatrix name θs = some U) :
+    U.WF ∧ U.r = U.c := by
+  unfold specMatrix at h
+  split at h
+  all_goals first
+    | (injection h with h; subst h; exact ⟨Mat.wf_build _ _ _, rfl⟩)
+    | (simp at h)
+
 /-- **Table theorem.**  For every name and every parameter list (any number, any values of `K`), the base
 case of `gate_matrix` succeeds exactly when the Quil specification defines that gate with that many
 parameters, and then returns the specification's matrix. -/
